@@ -41,6 +41,8 @@ def instances(tier, seed):
         if len(cnt) < 2:
             continue
         for op in ("hop1", "hop2", "hop0", "environ"):
+            if op == "hop0" and len(cnt) >= 5:
+                continue      # bond operators on 5-node trees exceed the worker's memory cap (outside the bound)
             out.append(dict(op=op, kinds=kinds, parents=list(par), counts=list(cnt), label="%s parents=%s counts=%s" % (op, list(par), list(cnt)), key=op))
     # (parents, counts, operator bond dimension): four nested operator applications are degree-4 polynomials in every operator entry
     pcs = [((0,), (2, 1), 2), ((0,), (1, 1), 2), ((0, 0), (1, 1, 1), 1), ((0, 1), (1, 1, 1), 1), ((0, 0), (0, 1, 1), 1)]
@@ -50,6 +52,9 @@ def instances(tier, seed):
         for imag in (False, True):
             out.append(dict(op="pc", kinds=kinds, parents=list(par), counts=list(cnt), imag=imag, obond=ob, run_opts=dict(budget_s=120.0), mem_gb=(8 if ob == 2 and len(cnt) > 2 else 3.5),
                             label="tree P&C parents=%s counts=%s operator bond %d imag=%s" % (list(par), list(cnt), ob, imag), key="pc"))
+            if ob == 1 or len(cnt) == 2:
+                out.append(dict(op="pc", kinds=kinds, parents=list(par), counts=list(cnt), imag=imag, obond=ob, normalize=True, run_opts=dict(budget_s=120.0),
+                                label="tree P&C parents=%s counts=%s operator bond %d imag=%s normalize=True" % (list(par), list(cnt), ob, imag), key="pc/normalize"))
     out.append(dict(op="pc_chain", label="linear tree P&C = chain Taylor(4) step", key="pc/chain"))
     sweeps = [((0,), (1, 1)), ((0, 0), (1, 1, 1)), ((0, 1), (1, 1, 1)), ((0, 0), (0, 1, 1)), ((0, 1, 1), (1, 0, 1, 1))]
     if tier == "thorough":
@@ -104,8 +109,19 @@ def make_harness(P):
             a.evolve_config = EvolveConfig(EvolveMethod.prop_and_compress_tdrk4)
             a.compress_config = CompressConfig(CompressCriteria.fixed, max_bonddim=10 ** 6)
             t = tau * (-1j) if P["imag"] else tau
-            with IdentityTreeCompression():
-                res = a.evolve(o, t, normalize=False)
+            # the normalisation switch: `normalize` is replaced by a recording identity, so that (a) its square roots stay out of the polynomial obligation and
+            # (b) WHETHER and HOW evolve() calls it becomes an obligation of its own (normalize=False: never; True: once, "mps_and_coeff" for imaginary and
+            # "mps_only" for real time)
+            calls = []
+            real_norm = trmod.TTNS.normalize
+            trmod.TTNS.normalize = lambda self_, kind_: (calls.append(kind_), self_)[1]
+            try:
+                with IdentityTreeCompression():
+                    res = a.evolve(o, t, normalize=bool(P.get("normalize", False)))
+            finally:
+                trmod.TTNS.normalize = real_norm
+            want = ([] if not P.get("normalize") else (["mps_and_coeff"] if P["imag"] else ["mps_only"]))
+            ctx.check("TTNS.evolve(normalize=%s) calls normalize %s" % (bool(P.get("normalize", False)), "never" if not want else "exactly once with kind %r" % want[0]), calls == want)
             # imaginary time: exp(-tau H) ; real time: exp(-i tau H)   (tau.imag = -tau, coeff = 1  |  coeff = -i)
             z = (tau * -1) if P["imag"] else (tau * (-1j))
             ref = va
